@@ -222,7 +222,7 @@ func nCases(tier string) int {
 var dottedOps []string
 
 const (
-	dottedMakers   = 10
+	dottedMakers   = 13
 	dottedPatterns = 4
 	dottedFollow   = 3
 )
@@ -269,8 +269,14 @@ func dottedCase(i int) Case {
 		ops = []Op{{Op: "list*-atom", T: 3}}
 	case 8: // the last cdr of lc replaced by nconc
 		ops = []Op{{Op: "nconc-atom", T: 3, A: 2}, {Op: "list", T: 2, K: 3}}
-	default: // a dotted copy of la
+	case 9: // a dotted copy of la
 		ops = []Op{{Op: "append-atom", T: 3, A: 0}}
+	case 10: // the cdr replaced by nil: a proper one-element list in front of its former tail
+		ops = []Op{{Op: "rplacd", T: 3, A: 0, B: 3}}
+	case 11: // a bare atom: the cdr of a dotted pair
+		ops = []Op{{Op: "cons-atom", T: 3}, {Op: "cdr", T: 3, A: 3}}
+	default: // a bare atom next to an empty list
+		ops = []Op{{Op: "cons-atom", T: 3}, {Op: "cdr", T: 3, A: 3}, {Op: "list", T: 2, K: 0}}
 	}
 	x, w := 2, 1 // an independent list; the former tail
 	tq := d
@@ -863,25 +869,29 @@ type world struct {
 type hiddenAlias struct {
 	c1, c2 []int
 	op     string
-	// legit: the two lists shared cons cells until a cdr was replaced (rplacd);
-	// that they still live in one backing array is how slip stores lists, not
-	// a missing allocation: an operation that then writes from one into the
-	// other is itself to blame
+	// legit: the elements of the two lists occupy different parts of the one
+	// backing array; only the spare capacity behind the one reaches into the
+	// other (what rplacd leaves when it cuts a list in two: the former tail
+	// stays where it was). That is how slip stores lists, not a missing
+	// allocation: an operation that then writes from the one into the other
+	// is itself to blame
 	legit bool
 }
 
-// span gives the address range of the backing array reachable from a list value.
-func (w *world) span(i int) (lo, hi uintptr, ok bool) {
+// span gives the address range of the backing array reachable from a list
+// value (lo..hi) and the part of it the elements of the value occupy (lo..used).
+func (w *world) span(i int) (lo, used, hi uintptr, ok bool) {
 	var obj slip.Object
 	if err := sl.Catch(func() { obj = w.scope.Get(slip.Symbol(names[i])) }); err != nil {
-		return 0, 0, false
+		return 0, 0, 0, false
 	}
 	list, isList := obj.(slip.List)
 	if !isList || cap(list) == 0 {
-		return 0, 0, false
+		return 0, 0, 0, false
 	}
 	lo = uintptr(unsafe.Pointer(unsafe.SliceData(list)))
-	return lo, lo + uintptr(cap(list))*unsafe.Sizeof(slip.Object(nil)), true
+	size := unsafe.Sizeof(slip.Object(nil))
+	return lo, lo + uintptr(len(list))*size, lo + uintptr(cap(list))*size, true
 }
 
 // sigName maps an operation variant to the function it exercises.
@@ -1883,6 +1893,26 @@ func (w *world) stepOp(op Op, phase string) {
 	switch got := w.v[op.T].shown; {
 	case errored || p.undef:
 	case got != render(want):
+		// arguments that are different lists by the language rules but were seen
+		// to occupy the same elements of one backing array: the reference result
+		// assumes they are independent, the operation that aliased them is to blame
+		args := []int{op.A, op.B, op.C}[:kd.nargs]
+		aliased := false
+		for j, a := range args {
+			for _, b := range args[:j] {
+				if a == b || intersects(before[a].cells, before[b].cells) {
+					continue
+				}
+				if via, legit, found := w.blame(before[a].cells, before[b].cells); found && !legit && !aliased {
+					aliased = true
+					x.Fail("alias via="+sigName(via), "%s bound %s to %s, the reference result is %s: the arguments %s and %s share no cons cell by the language rules but occupy the same part of one backing array since %s\nhistory: %s",
+						src, names[op.T], got, render(want), names[b], names[a], via, hist())
+				}
+			}
+		}
+		if aliased {
+			break
+		}
 		detail := dot
 		switch {
 		case op.Op == "rplacd" && len(before[op.B].el) == 0:
@@ -1897,6 +1927,8 @@ func (w *world) stepOp(op Op, phase string) {
 			detail += " tail=list"
 		case (op.Op == "revappend" || op.Op == "nreconc") && len(before[op.B].el) == 0:
 			detail += " tail=nil"
+		case (op.Op == "revappend" || op.Op == "nreconc" || op.Op == "append") && before[op.B].el.conses() == 0:
+			detail += " tail=atom"
 		case op.Op == "cons-atom", op.Op == "append-atom", op.Op == "nconc-atom":
 			detail += " tail=atom"
 		}
@@ -1919,10 +1951,20 @@ func (w *world) stepOp(op Op, phase string) {
 		switch {
 		case len(dcells) == 0:
 			x.Cover("frame:non-destructive-checked")
-			if changed {
+			if changed && kd.ext && 0 < len(p.dargs) && !p.undef {
+				// an empty list is extended (an empty tail of another list can still
+				// have the spare capacity of that list behind it)
+				x.Fail("overwrite op="+label+dot, "%s extends an empty list but overwrote elements reachable from %s: %s became %s\nhistory: %s",
+					src, names[i], before[i].shown, w.v[i].shown, hist())
+			} else if changed {
 				x.Fail("frame op="+label+dot, "%s is not destructive (or had nothing to destroy) but changed %s from %s to %s\nhistory: %s",
 					src, names[i], before[i].shown, w.v[i].shown, hist())
 			}
+		case !before[i].ok:
+			// not a list before (slip keeps the atom of a dotted pair in the
+			// slot of the next element, so a tail alias taken before rplacd reads as
+			// (. 9 3 4) afterwards, which the property exempts): nothing to judge
+			x.Cover("frame:not-a-list-unjudged")
 		case !shares:
 			if 0 < len(before[i].el) {
 				x.Cover("frame:destructive-unrelated-checked")
@@ -1943,8 +1985,8 @@ func (w *world) stepOp(op Op, phase string) {
 					// the two lists were one until a cdr was replaced; they still live in
 					// one backing array, which is slip's way of storing them: this operation
 					// wrote from the one into the other
-					x.Fail("overwrite op="+label+dot, "%s changed %s from %s to %s although %s is no tail of %s any more since %s replaced a cdr (by the language rules they share no cons cell now)\nhistory: %s",
-						src, names[i], before[i].shown, w.v[i].shown, names[i], names[d], via, hist())
+					x.Fail("overwrite op="+label+dot, "%s changed %s from %s to %s although %s shares no cons cell with %s by the language rules (the elements of %s lie in the spare capacity behind the result of %s)\nhistory: %s",
+						src, names[i], before[i].shown, w.v[i].shown, names[i], names[d], names[i], via, hist())
 					continue
 				}
 				if !found {
@@ -1981,34 +2023,16 @@ func (w *world) stepOp(op Op, phase string) {
 	}
 	// name-only bookkeeping: does the new value of the target occupy the
 	// backing array of a variable it shares no cons cell with?
-	if lo, hi, ok := w.span(op.T); ok {
-		// the arguments whose cells the result may consist of by the language rules
-		var srcs []int
-		switch kd.share {
-		case shA:
-			srcs = []int{op.A}
-		case shB:
-			srcs = []int{op.B}
-		case shC:
-			srcs = []int{op.C}
-		case shAB:
-			srcs = []int{op.A, op.B}
-			if op.Op == "nconc3" {
-				srcs = append(srcs, op.C)
-			}
-		}
+	if lo, used, hi, ok := w.span(op.T); ok {
 		for i := 0; i < nv; i++ {
 			if i == op.T || w.sharing(i, op.T) {
 				continue
 			}
-			if l2, h2, ok2 := w.span(i); ok2 && lo < h2 && l2 < hi {
-				legit := false
-				for _, j := range srcs {
-					legit = legit || intersects(before[i].cells, before[j].cells)
-				}
+			if l2, u2, h2, ok2 := w.span(i); ok2 && lo < h2 && l2 < hi {
+				legit := !(lo < u2 && l2 < used)
 				w.hidden = append(w.hidden, hiddenAlias{c1: w.v[op.T].cells, c2: w.v[i].cells, op: label, legit: legit})
 				if legit {
-					x.Cover("former-tail-in-one-backing-array-seen")
+					x.Cover("spare-capacity-reaching-into-another-list-seen")
 				} else {
 					x.Cover("hidden-backing-array-sharing-seen")
 				}
